@@ -156,6 +156,8 @@ class GameCoordinator:
         self._agent_rewards = {}
         # trajectories per agent_addr
         self._agent_trajectories = {}
+        # agents (agent_addr) which were already assigned the end-of-episode reward in the current episode
+        self._episode_rewards_assigned = set()
     
     def _spawn_task(self, coroutine, *args, **kwargs)->asyncio.Task:
         "Helper function to make sure all tasks are registered for proper termination"
@@ -658,14 +660,23 @@ class GameCoordinator:
                 for agent in attackers:
                     self.logger.debug(f"Processing reward for agent {agent}")
                     if self._agent_status[agent] is AgentStatus.Success:
-                        self._agent_rewards[agent] += self._rewards["success"]
                         successful_attack = True
+                    if agent in self._episode_rewards_assigned or not self._episode_ends[agent]:
+                        # final reward is assigned only once per episode
+                        continue
+                    self._episode_rewards_assigned.add(agent)
+                    if self._agent_status[agent] is AgentStatus.Success:
+                        self._agent_rewards[agent] += self._rewards["success"]
                     else:
                         self._agent_rewards[agent] += self._rewards["fail"]
                 
                 # award defenders
                 for agent in defenders:
                     self.logger.debug(f"Processing reward for agent {agent}")
+                    if agent in self._episode_rewards_assigned or not self._episode_ends[agent]:
+                        # final reward is assigned only once per episode
+                        continue
+                    self._episode_rewards_assigned.add(agent)
                     if not successful_attack:
                         self._agent_rewards[agent] += self._rewards["success"]
                         self._agent_status[agent] = AgentStatus.Success
@@ -710,6 +721,7 @@ class GameCoordinator:
                     self._episode_ends[agent] = False
                     self._reset_requests[agent] = False
                     self._agent_rewards[agent] = 0
+                    self._episode_rewards_assigned.discard(agent)
                     self._agent_steps[agent] = 0
                     if self.agents[agent][1].lower() == "attacker":
                         self._agent_status[agent] = AgentStatus.PlayingWithTimeout
@@ -779,6 +791,7 @@ class GameCoordinator:
                         if len(self.agents) > 0:
                             self._episode_end_event.set()
                 agent_info["end_reward"] = self._agent_rewards.pop(agent_addr, None)
+                self._episode_rewards_assigned.discard(agent_addr)
                 agent_info["agent_info"] = self.agents.pop(agent_addr)
                 self.logger.debug(f"\t{agent_info}")
                 # clear the sufficient number of players event
